@@ -1,6 +1,6 @@
-\* C20 (function calls evaluated operand by operand, FROM-subqueries), exhaustive: 2 threads, every interleaving of the
-\* compilation steps (inner targets, subquery table, names) and of the evaluation steps (operand, operand, apply),
-\* property-conforming mechanism; termination under weak fairness
+\* C20 (delivery of the results), exhaustive: 2 threads, statements handed to the connection's execute() shortcut or to a
+\* cursor of the thread's own, every interleaving of compilation, scan and DELIVERY steps (execute() returned; description
+\* read + rows fetched, in one or several steps), property-conforming mechanism; termination under weak fairness
 CONSTANTS
   Threads = {1, 2}
   CompilerScope = "per execution"
@@ -10,7 +10,7 @@ CONSTANTS
   OperandScope = "per call"
   SubqueryColumns = "per table object"
   ResultScope = "per execute call"
-  JobSet = "expr"
+  JobSet = "deliver"
 SPECIFICATION FairSpec
 INVARIANTS TypeOK SerialInv OwnParameters OwnRow OwnStatement OwnOperands OwnNames OwnResults
 PROPERTIES NonInterference NoSharedState JobConstant Termination
